@@ -44,8 +44,8 @@ REGISTRY: dict[str, dict] = {
              "7th offset and all frame ends in quick, all offsets in thorough. Non-trivial = every stream.",
     ),
     "C13": dict(
-        modules=["C13", "Tables", "C02Full", "TranslatedFuncs"],
-        theorems=[T + "Translated.validate_type_compatibility_eq", T + "Translated.stream_types_flat_eq", T + "Translated.lookup_preset_post_init_eq", T + "Translated.stream_parameters_version_eq", T + "C13_header_fidelity_bytes", T + "C13_header_fidelity", T + "C13_version", T + "C13_type_pairs_agree", T + "C13_writer_rejects",
+        modules=["C13", "Tables", "C02Full", "TranslatedFuncs", "TranslatedDec"],
+        theorems=[T + "Translated.validate_stream_options_eq", T + "Translated.validate_type_compatibility_eq", T + "Translated.stream_types_flat_eq", T + "Translated.lookup_preset_post_init_eq", T + "Translated.stream_parameters_version_eq", T + "C13_header_fidelity_bytes", T + "C13_header_fidelity", T + "C13_version", T + "C13_type_pairs_agree", T + "C13_writer_rejects",
                   T + "C13_reader_rejects_small_names", T + "C13_strict_gates", T + "C13_logical_type_irrelevant",
                   T + "C13_logical_type_irrelevant_state", T + "C13_reader_rejects_oversized",
                   T + "C13_reader_rejects_new_version", T + "C13_infer_flow_table"],
@@ -58,7 +58,7 @@ REGISTRY: dict[str, dict] = {
     ),
     "C04": dict(
         modules=["C04", "C04Bytes", "TranslatedDec", "TranslatedDStmt"],
-        theorems=[T + "Translated.decode_triple_eq", T + "Translated.decode_quad_eq", T + "Translated.modelDec_like", T + "Translated.decode_iri_eq", T + "Translated.decode_literal_eq", T + "Translated.ingest_rows_eq", T + "C04_decoder_refines_spec", T + "C04_bytes_delimited", T + "C04_bytes_single"],
+        theorems=[T + "Translated.validate_stream_options_eq", T + "Translated.decode_triple_eq", T + "Translated.decode_quad_eq", T + "Translated.modelDec_like", T + "Translated.decode_iri_eq", T + "Translated.decode_literal_eq", T + "Translated.ingest_rows_eq", T + "C04_decoder_refines_spec", T + "C04_bytes_delimited", T + "C04_bytes_single"],
         rule="PARSE: streams from the harness's independent reference encoder making arbitrary legal choices (random "
              "eviction victim, random IRI split point, explicit vs zero ids, early/redundant entries, repeats used or not, "
              "random frame cuts, empty frames, repeated options rows, metadata; physical types 1-3, versions 1-2, tables "
@@ -67,7 +67,7 @@ REGISTRY: dict[str, dict] = {
     ),
     "C16": dict(
         modules=["C04", "C04Bytes", "TranslatedDec", "TranslatedDStmt"],
-        theorems=[T + "Translated.decode_triple_eq", T + "Translated.decode_quad_eq", T + "Translated.modelDec_like", T + "Translated.decode_iri_eq", T + "Translated.decode_literal_eq", T + "Translated.ingest_rows_eq", T + "C16_rejects_at_offending_row", T + "C16_bad_header_rejected", T + "C16_frames"],
+        theorems=[T + "Translated.validate_stream_options_eq", T + "Translated.decode_triple_eq", T + "Translated.decode_quad_eq", T + "Translated.modelDec_like", T + "Translated.decode_iri_eq", T + "Translated.decode_literal_eq", T + "Translated.ingest_rows_eq", T + "C16_rejects_at_offending_row", T + "C16_bad_header_rejected", T + "C16_frames"],
         rule="PARSE: valid reference-encoder streams with ONE injected violation per catalogued class at a random site "
              "(18 classes), confirmed invalid by the Lean referee (with the class it reports); real parse_jelly_flat must "
              "raise and what it yielded before must be the referee's denotation of the valid prefix. Non-trivial = every "
